@@ -93,6 +93,7 @@ type World struct {
 	// Strict makes collection progress part of the judged property (C06/C07); otherwise a
 	// collection that does not settle makes the case inconclusive (skipped), not failed.
 	Strict     bool
+	memCheck   func()
 	inCallback bool  // running inside a callback of the code under test: failures are deferred
 	quiet      bool  // suppress per-op log lines (bulk actions log a summary)
 	failed     *bool // shared "a failure was seen in this process" flag
@@ -560,6 +561,9 @@ func (w *World) settle() bool {
 	for {
 		d := w.Stats()
 		if d.NodeCount == want && d.SoftDeletes == 0 {
+			if w.Strict && w.memCheck != nil {
+				w.memCheck()
+			}
 			return first
 		}
 		first = false
